@@ -16,11 +16,51 @@ def copy_corpus(root):
     jobs = []
     if os.path.isdir(os.path.join(cdir, "pkgs")):
         shutil.copytree(os.path.join(cdir, "pkgs"), root, dirs_exist_ok=True)
+    jobs += copy_suite(root)
     jf = os.path.join(cdir, "jobs.json")
     if os.path.exists(jf):
         for j in json.load(open(jf)):
             j = dict(j)
             j["corpus"] = True
+            jobs.append(j)
+    return jobs
+
+
+SUITE = [("variadic", ["Echoer"], {}), ("blankid", ["Swallower"], {}), ("channels", ["Queuer"], {"stub": True}),
+         ("shadow/http", ["Thing"], {"pkg": "mock"}), ("shadow", ["Shadower"], {}), ("importalias", ["MiddleMan"], {}),
+         ("paramconflict", ["Interface"], {}), ("genparamname", ["Interface"], {}), ("syncimport", ["Syncer"], {}),
+         ("anonimport", ["Example"], {}), ("shadowtypes", ["ShadowTypes"], {}),
+         ("generics", ["GenericStore1", "GenericStore2", "AliasStore"], {}), ("genericreturn", ["IFooBar"], {}),
+         ("transientimport", ["Transient"], {}), ("withresets", ["ResetStore", "ResetStoreGeneric"], {"resets": True}),
+         ("rangenum", ["Magician"], {}), ("typealias", ["Example"], {}), ("imports/two", ["DoSomething"], {}),
+         ("example", ["PersonStore"], {}), ("example", ["PersonStore"], {"pkg": "different", "skip": True}),
+         ("emptyinterface", ["Empty"], {}), ("samenameimport", ["Example"], {}), ("typealiastwo", ["AliasType"], {})]
+
+
+def copy_suite(root):
+    """The inputs of moq's own golden tests, copied into the scratch module (import paths
+    rewritten); they must be inside WF and hold every property: non-vacuity of the hypotheses."""
+    src = os.path.join(build.REPO, "pkg", "moq", "testpackages")
+    dst = os.path.join(root, "tp")
+    jobs = []
+    if not os.path.isdir(src):
+        return jobs
+    old = "github.com/matryer/moq/pkg/moq/testpackages"
+    for d, dirs, files in os.walk(src):
+        rel = os.path.relpath(d, src)
+        dirs[:] = [x for x in dirs if x not in ("vendor", "vendoring", "buildconstraints", "modules", "gogenvendoring",
+                                                "_parseerror", "dotimport")]
+        for f in files:
+            if not f.endswith(".go") or "golden" in f or f.endswith("_test.go") or f == "user_moq_test.go":
+                continue
+            text = open(os.path.join(d, f), errors="replace").read().replace(old, gen.MOD + "/tp")
+            p = os.path.join(dst, rel, f)
+            os.makedirs(os.path.dirname(p), exist_ok=True)
+            open(p, "w").write(text)
+    for d, ifs, kw in SUITE:
+        if os.path.isdir(os.path.join(dst, d)):
+            j = {"dir": "tp/" + d, "args": ifs, "corpus": True, "suite": True}
+            j.update(kw)
             jobs.append(j)
     return jobs
 
